@@ -24,6 +24,8 @@ LEVEL = "exploration"
 RULE = ("cases = (compiled configuration, seed). small: dimension 3..15, which of the slots 0/1/2/4 are populated, slot shapes; "
         "per case random SPD matrix (condition 1..100), couplings, slot values, starting guess and cotangents; both entry "
         "points x default/tight CG settings. fe: mesh x material x design kind, random boundary values, design, dead load. "
+        "every field of Objective.Params is populated and read by the energies: 0 bc, 1 state, 2 design, 3 app data (coefficients), "
+        "4 time, 5 dynamic data (Newmark-type inertia 0.5/(beta dt^2)(x-xd)^T M (x-xd) with dt from the time slot). "
         "every solve-class evaluation rebuilds the Objective around one of five preconditioner strategies (none / stale initial "
         "stiffness / Jacobi / identity / randomly rescaled), cycled by seed. "
         "helper: mesh x material (J2, rate-sensitive J2, HyperViscoelastic, MultiBranch, Neohookean) x time step kind (argument "
@@ -68,6 +70,10 @@ REQUIRED = {
         "objective_closure_compared": 40,
         "precond_none_compared": 10, "precond_stale_compared": 10, "precond_jacobi_compared": 10, "precond_identity_compared": 10,
         "precond_perturbed_compared": 10,
+        "slot0_populated": 20, "slot1_populated": 10, "slot2_populated": 20, "slot4_populated": 10, "slot3_populated_and_read": 20,
+        "slot5_populated_and_read": 20, "param_index_update_contract_evaluations": 40,
+        "param_index_update_index0_checked": 20, "param_index_update_index1_checked": 20, "param_index_update_index2_checked": 20,
+        "param_index_update_index3_checked": 20, "param_index_update_index4_checked": 20, "param_index_update_index5_checked": 20,
         "helper_product_compared": 60, "helper_fd_compared": 8, "helper_yielded_points": 1, "helper_evolving_points": 1,
         "helper_dt_nonzero_j2": 6, "helper_dt_nonzero_j2_rate": 6, "helper_dt_nonzero_visco": 6, "helper_dt_nonzero_multibranch": 6,
         "helper_dt_nonzero_hyperelastic": 2, "helper_j2_rate_dt_default": 1, "helper_visco_dt_default": 1, "helper_multibranch_dt_default": 1,
@@ -335,6 +341,69 @@ def _compare_slots(res, st, v, cp, p, sname, clause, mech=None, extra=None, dire
     return nz
 
 
+_PIU = {"n": 0, "bad": []}
+
+
+def _install_param_update_contract():
+    """Contract on Objective.param_index_update (module attribute, so the Objective's own closures go through it while they
+    are traced): the result carries newParam at `index` and the IDENTICAL objects of p in every other field -- all six."""
+    if _PIU.get("installed"):
+        return
+    from optimism import Objective
+    orig = Objective.param_index_update
+
+    def checked(p, index, newParam):
+        out = orig(p, index, newParam)
+        _PIU["n"] += 1
+        try:
+            ok = out is not None and len(out) == len(p) == 6 and out[index] is newParam and all(out[j] is p[j] for j in range(6) if j != index)
+        except Exception:
+            ok = False
+        if not ok and len(_PIU["bad"]) < 5:
+            _PIU["bad"].append({"index": int(index), "fields_kept": [bool(out is not None and j < len(out) and out[j] is p[j]) for j in range(6)]})
+        return out
+
+    Objective.param_index_update = checked
+    _PIU["installed"] = True
+
+
+def _param_update_direct(res, p):
+    """Direct evaluation of the same contract for every index 0..5 on the fully populated parameter set of this case."""
+    from optimism import Objective
+    for idx in range(6):
+        new = object() if p[idx] is None else p[idx]
+        marker = ("marker", idx)
+        out = Objective.param_index_update(p, idx, marker)
+        ok = out is not None and len(out) == 6 and out[idx] is marker and all(out[j] is p[j] for j in range(6) if j != idx)
+        res.expect("param_index_update_roundtrip", ok, {"index": idx, "fields_kept": [bool(out is not None and j < len(out) and out[j] is p[j]) for j in range(6)] if out is not None else None})
+        res.count("param_index_update_index%d_checked" % idx)
+
+
+def _slot_dependence(res, prob, x, p):
+    """The energy genuinely reads the non-differentiable slots too: perturbing app data (3) / dynamic data (5) moves the residual."""
+    import jax
+    g0 = _np(prob["obj"].grad_x(x, p))
+    for k in (3, 5):
+        if p[k] is None:
+            continue
+        q = type(p)(*[jax.tree_util.tree_map(lambda z: 1.1 * z + 0.01, p[i]) if i == k else p[i] for i in range(6)])
+        if float(onp.linalg.norm(_np(prob["obj"].grad_x(x, q)) - g0)) > 1e-8 * (1.0 + float(onp.linalg.norm(g0))):
+            res.count("slot%d_populated_and_read" % k)
+    for k in (0, 1, 2, 4):
+        if p[k] is not None and onp.size(p[k]) > 0:
+            res.count("slot%d_populated" % k)
+
+
+def _drain_param_update_contract(res):
+    n = _PIU["n"]
+    _PIU["n"] = 0
+    if n:
+        res.count("param_index_update_contract_evaluations", n)
+    bad, _PIU["bad"] = _PIU["bad"], []
+    for b in bad:
+        res.violate("param_index_update_contract", b)
+
+
 def _closures(res, prob, st, x, p, rng):
     """The Objective's jitted derivative closures the reverse rules are assembled from, against the dense Jacobians
     (rounding-level agreement: same primal code, different differentiation mode)."""
@@ -396,7 +465,13 @@ def _single(res, prob, entry, sname, x0, p, p_before, p_after, vs, rng):
     moved = float(onp.linalg.norm(_np(Uu) - _np(x0))) > 1e-6
     nontrivial = moved
     if sname == "tight" and entry == "state":
-        _closures(res, prob, st, Uu, p, rng)
+        _param_update_direct(res, p)
+        _slot_dependence(res, prob, Uu, p)
+        try:
+            _closures(res, prob, st, Uu, p, rng)
+        except Exception as e:  # noqa  -- a derivative closure of the Objective raises on a fully populated parameter set
+            res.violate("derivative_exists", {"stage": "Objective closure (vec_jacobian_p*/jacobian_p*_vec/hessian products)", "entry": entry,
+                                              "exc": "%s: %s" % (type(e).__name__, str(e)[:200])}, _exc_mechanism(e))
     for v in vs:
         obj.p = p_after          # a later load step has overwritten the objective's parameters before the backward pass
         res.count("backward_after_p_mutation")
@@ -515,7 +590,8 @@ def _chain(res, prob, entry, sname, x0, theta, app, scales, vs, w, clause="chain
     solve = _solver(entry)
     K = len(scales)
     upd = prob["upd_jit"]
-    appj = jax.tree_util.tree_map(np.asarray, app)
+    from vlib.gen.c07_problems import split_app
+    appj, dynj = split_app(app)
     slots = sorted(theta.keys())
     dslots = slots if entry == "state" else [2]
     use_upd = entry == "state" and upd is not None and 1 in theta and onp.size(theta[1]) > 0
@@ -523,7 +599,7 @@ def _chain(res, prob, entry, sname, x0, theta, app, scales, vs, w, clause="chain
 
     def params(k, th, S):
         g = lambda sl: (scales[k][sl] * th[sl] if sl in th else None)
-        return Objective.Params(g(0), S if 1 in th else None, g(2), appj, g(4))
+        return Objective.Params(g(0), S if 1 in th else None, g(2), appj, g(4), dynj)
 
     def run(*args):
         th = dict(const)
@@ -1259,6 +1335,14 @@ def finalize(results, tier):
 def run_case(case):
     res = Res(case)
     _install_recorder()
+    _install_param_update_contract()
+    try:
+        return _run_case(case, res)
+    finally:
+        _drain_param_update_contract(res)
+
+
+def _run_case(case, res):
     cls = case["cls"]
     if cls in ("small_single", "small_corner"):
         return _run_small_single(case, res)
